@@ -62,6 +62,9 @@ Decls ==
     ifaceSimple      |-> {W("IfaceSimple", {"M"})},
     ifaceEmbed       |-> {W("IfaceEmbedBase", {"Base"}), W("IfaceEmbed", {"Base", "Extra"})},
     ifaceEmbedExt    |-> {W("IfaceEmbedExt", {"Read", "Close"})},
+    \* inherited methods whose signatures mention a package the wrapped package does not import itself
+    ifaceEmbedThird  |-> {W("IfaceConn", {"Read", "Write", "Close", "LocalAddr", "RemoteAddr", "SetDeadline", "SetReadDeadline", "SetWriteDeadline", "ID"})},
+    ifaceEmbedInfo   |-> {W("IfaceInfo", {"Name", "Size", "Mode", "ModTime", "IsDir", "Sys", "Extra"})},
     ifaceUnexported  |-> {W("IfaceUnexp", {"Pub"})},
     ifaceVariadic    |-> {W("IfaceVariadic", {"Logf", "Sum"})},
     ifaceUnnamed     |-> {W("IfaceUnnamed", {"Do", "One"})},
@@ -84,7 +87,7 @@ Kinds == DOMAIN Decls
 KindSeq == << "uintSmall", "uintHuge", "uintNeg", "ufloatDyadic", "ufloatWhole", "ufloatBig", "ufloatNonDyadic",
               "urune", "ustring", "ustringLong", "ufloatTiny", "ubool", "ucomplex", "typedConst", "typedEnum", "varPlain",
               "varFunc", "varIface", "funcPlain", "funcVariadic", "funcNamedRes", "funcFuncParam", "genericFunc",
-              "genericType", "structType", "ifaceSimple", "ifaceEmbed", "ifaceEmbedExt", "ifaceUnexported", "ifaceVariadic",
+              "genericType", "structType", "ifaceSimple", "ifaceEmbed", "ifaceEmbedExt", "ifaceEmbedThird", "ifaceEmbedInfo", "ifaceUnexported", "ifaceVariadic",
               "ifaceUnnamed", "ifaceLocalType", "ifaceExtSig", "ifaceEmpty", "ifaceString", "ifaceFuncTypes", "constraintOnly",
               "constraintMethods", "ifaceBlankParam", "ifaceParamW", "aliasLocal", "aliasExtIface", "aliasGenericInst", "unexported" >>
 
